@@ -216,6 +216,7 @@ struct Ed {
 		if (c.kind == "place") {
 			if (N == 0) { o.corner = true; o.why = "motion in the empty buffer"; return o; }
 			if (c.mot == "G") { int row = has_cnt ? cnt - 1 : N - 1; if (row >= N) { o.corner = true; o.why = "count leaves the buffer"; return o; } M.set(row, M.first_nonblank(row)); return o; }
+			if ((c.mot == "j" && r + cnt >= N) || (c.mot == "k" && r - cnt < 0)) { o.corner = true; o.why = "count leaves the buffer"; return o; }
 			Pos before = M.c;
 			if (!M.motion(c.mot, cnt, has_cnt)) { M.c = before; o.fail = true; }
 			if (strchr("wWbBeE", c.mot[0]) && blank_between(before.row, o.fail ? (strchr("bB", c.mot[0]) ? 0 : N - 1) : M.c.row)) { M.c = before; o.fail = false; o.corner = true; o.why = "word motion across a blank-only line"; }
